@@ -150,7 +150,8 @@ prop("C06",
       ("S6", S.S6, K01, {"roles_filter": ("READY", "DONE")}),
       ("W4", lambda ctx: __import__("rules_run").W4(ctx), K01, {}), ("S2", S.S2, K01, {}),
       ("R3", B.R3, K0, {"parts": ("structures", "counts")}), ("R4", B.R4, K0, {}), ("S1", S.S1, K01, {}),
-      ("T3", T.T3, K01, {"want_stream": True}), ("Q6", R.clone_frame, K0, {}), ("S4", S.S4, K01, {"liveness": True}), ("T5", T.T5, K01, {})],
+      ("T3", T.T3, K01, {"want_stream": True}), ("Q6", R.clone_frame, K0, {}), ("S4", S.S4, K01, {"liveness": True}), ("T5", T.T5, K01, {}),
+      ("B1", S.opts_frame, K01, {"fields": ("StreamOrder",)}), ("B2", S.order_wiring, K01, {})],
      K01,
      "Decides W4 = L1 (limit forwarded unchanged, so None gates nothing), W1 (the only edge-adding call on the user's graph reachable from build() is update_edge with the constant Edge::Data, "
      "no other node/edge-set mutator), W2 (the comparison pairs feeding its guard contain no read x read pair and no same-function pair; "
@@ -224,7 +225,8 @@ prop("C07",
       ("O4", R.O4, K01, {}), ("S7", S.S7, K01, {}),
       ("B1", S.opts_frame, K01, {"fields": ("StreamOrder",)}), ("B2", S.order_wiring, K01, {}),
       ("R2", B.R2, ("K0",), {"strict_order": False}), ("R3", B.R3, ("K0",), {"parts": ("structures", "counts")}), ("S1", S.S1, K01, {}), ("R6", B.D2_coverage, ("K0",), {}), ("R1", B.R1, ("K0",), {}), ("R7", B.R7, ("K0",), {}), ("ID", B.ID_rules, ("K0",), {}), ("E", B.C16_rules, ("K0",), {}),
-      ("A1", T.A1, K01, {}), ("N7", B.N7, K01, {}), ("L5", R.L5, K01, {}), ("P2", T.P2, K01, {}), ("T5", T.T5, K01, {})],
+      ("A1", T.A1, K01, {}), ("N7", B.N7, K01, {}), ("L5", R.L5, K01, {}), ("P2", T.P2, K01, {}), ("T5", T.T5, K01, {}),
+      ("S2", S.S2, K01, {}), ("S3", S.S3, K01, {})],
      K01,
      "Decides F1 (on the Err arm of the user future exactly one awaited send on the RESULT channel carries that error), F2 (from the Err arm every "
      "path to the done-send passes through the release of the done-sender), F3 (RESULT capacity monotone in node_count; its receiver is drained only "
